@@ -187,7 +187,7 @@ class FSHooks(ClassHooks):
         return super().get_attr(eng, obj, attr)
 
     def global_name(self, eng, name):
-        if name in ("shutil", "os"):
+        if name in ("shutil", "os", "contextlib"):
             return Opaque("module", modname=name)
         if name in ("FileFormatError",):
             return Raise(name)
